@@ -39,6 +39,7 @@ func init() {
 		"vTimers":     inTimers,
 		"vFail":       inFail,
 		"vSections":   inSections,
+		"vPick":       inPick,
 	}
 }
 
@@ -145,10 +146,24 @@ func inAssume(t *Thread, fn *ssa.Function, args []Value, pos token.Pos) Value {
 	if c.IsTrue() {
 		return nil
 	}
-	if c.IsFalse() || !e.feasible(c) {
+	if c.IsFalse() {
+		panic(pathAbort{"infeasible", "vAssume"})
+	}
+	if e.pos < len(e.trail) {
+		// still on the recorded prefix: this assumption was part of the path condition whose
+		// feasibility was established when the prefix was first explored
+		e.assume(c)
+		return nil
+	}
+	e.curKind = "vAssume"
+	ok, m := e.feasibleM(c)
+	if !ok {
 		panic(pathAbort{"infeasible", "vAssume"})
 	}
 	e.assume(c)
+	if m != nil {
+		e.model = m
+	}
 	return nil
 }
 
@@ -163,13 +178,39 @@ func inAssert(t *Thread, fn *ssa.Function, args []Value, pos token.Pos) Value {
 		return nil
 	}
 	nc := e.ts.Not(c)
+	if e.pos < len(e.trail) && e.concrete == nil {
+		// before the divergence point the parent path evaluated this very assertion under the
+		// same path condition; it is decided (and reported) there
+		e.assertInherited++
+		if !c.IsConst {
+			e.assume(c)
+		} else if c.IsFalse() {
+			panic(pathAbort{"asserted", "assertion " + label + " fails (decided on the parent path)"})
+		}
+		return nil
+	}
 	if e.concrete != nil {
 		e.violation("assert", label, "assertion failed (concrete) at "+t.posOf(pos), e.concrete)
 		return nil
 	}
-	e.queries++
 	e.assertQueries++
-	r, m, why := e.ps.Check(e.pc, nc, e.nondets)
+	var r SatResult
+	var m map[string]uint64
+	var why string
+	if e.holdsInModel(nc) {
+		r, m = Sat, e.fullModel(e.model)
+		e.cacheHits++
+	} else {
+		e.queries++
+		e.eng.noteFn("query:assert", 1)
+		r, m, why = e.ps.Check(e.pc, nc, e.modelVars(nc))
+		if r == Sat {
+			if m == nil {
+				m = map[string]uint64{}
+			}
+			m = e.fullModel(m)
+		}
+	}
 	switch r {
 	case Unknown:
 		e.unknowns = append(e.unknowns, "assert "+label+": "+why)
@@ -255,6 +296,11 @@ func inPanics(t *Thread, fn *ssa.Function, args []Value, pos token.Pos) (res Val
 func (t *Thread) sameValue(a, b Value) *Term {
 	e := t.e
 	ts := e.ts
+	if ua, ok := a.(*Union); ok {
+		if ub, ok := b.(*Union); ok && ua == ub {
+			return ts.Bool(true)
+		}
+	}
 	a, b = t.conc(a), t.conc(b)
 	switch x := a.(type) {
 	case nil:
@@ -559,4 +605,24 @@ func inSections(t *Thread, fn *ssa.Function, args []Value, pos token.Pos) Value 
 
 func inFail(t *Thread, fn *ssa.Function, args []Value, pos token.Pos) Value {
 	panic(pathAbort{"fatal", "vFail: " + t.constStr(args[0], "vFail msg") + " at " + t.posOf(pos)})
+}
+
+// vPick(idx, opts...) returns opts[idx]; with a symbolic idx the result is a Union that is only
+// forked when (and if) the program looks into it.
+func inPick(t *Thread, fn *ssa.Function, args []Value, pos token.Pos) Value {
+	e := t.e
+	idx := args[0].(*Term)
+	opts := variadicArgs(args[1])
+	if idx.IsConst {
+		i := int(int64(idx.C))
+		if i < 0 || i >= len(opts) {
+			t.goPanicf(pos, "vPick index out of range", nil)
+		}
+		return opts[i]
+	}
+	u := &Union{}
+	for k, o := range opts {
+		u.alts = append(u.alts, UnionAlt{g: e.ts.Eq(idx, e.ts.BV(64, uint64(k))), v: o})
+	}
+	return u
 }
